@@ -19,6 +19,9 @@ structure Slot where
   fc : Bool := false
   responder : Bool := false
   sentOff : Nat := 0
+  pushes : Bool := false        -- `client::PushPromises` taken from the response future
+  pushesTaken : Bool := false   -- `push_promises()` may be called once
+  pushedFut : Bool := false     -- `client::PushedResponseFuture` (the slot of a promised stream)
   deriving Repr
 
 /-- `client::SendRequest`: the `pending` stream reference -/
@@ -190,7 +193,10 @@ def dropHandles (s : Streams) (slot : Slot) (which : String) : Streams × Slot :
   let dSend := fun (p : Streams × Slot) =>
     if p.2.send then (p.1.dropStreamRef p.2.key, { p.2 with send := false }) else p
   let dResp := fun (p : Streams × Slot) =>
-    if p.2.respFut then (p.1.dropStreamRef p.2.key, { p.2 with respFut := false }) else p
+    let p := if p.2.respFut then (p.1.dropStreamRef p.2.key, { p.2 with respFut := false }) else p
+    if p.2.pushedFut then (p.1.dropStreamRef p.2.key, { p.2 with pushedFut := false }) else p
+  let dPushes := fun (p : Streams × Slot) =>
+    if p.2.pushes then (p.1.dropStreamRef p.2.key, { p.2 with pushes := false }) else p
   let dBody := fun (p : Streams × Slot) =>
     if p.2.body then ((p.1.refClearRecvBuffer p.2.key).dropStreamRef p.2.key, { p.2 with body := false }) else p
   let dFc := fun (p : Streams × Slot) =>
@@ -203,8 +209,8 @@ def dropHandles (s : Streams) (slot : Slot) (which : String) : Streams × Slot :
   | "body" => dBody (s, slot)
   | "fc" => dFc (s, slot)
   | "responder" => dResponder (s, slot)
-  | "pushes" => (s, slot)
-  | _ => dResponder (dFc (dBody (dResp (dSend (s, slot)))))
+  | "pushes" => dPushes (s, slot)
+  | _ => dPushes (dResponder (dFc (dBody (dResp (dSend (s, slot))))))
 
 /-- the harness drops `ConnKind::Client(conn, sr, clones)` field by field: `Drop for proto::Connection`
     (`recv_eof(true)`), the connection's fields (`ping_pong` — `UserPingsRx` — before `streams`),
@@ -529,21 +535,47 @@ def stepConn (w : World) (c : Conn) (ws : List String) : Option (World × String
           | .error e => "err:" ++ renderApiErr e
         some (finish w (withStreams c s) rs)
     | none => none
+  | ["cn_takepushes", k] =>
+    match getSlot w k with
+    | some (i, slot) =>
+      -- `ResponseFuture::push_promises()` (a clone of the stream reference); it panics when called twice, which the
+      -- harness does not do
+      if !slot.respFut || slot.pushesTaken then some (finish w c "nohandle")
+      else
+        let s := c.streams.cloneStreamRef slot.key
+        some (finish (setSlot w i { slot with pushes := true, pushesTaken := true }) (withStreams c s) "ok")
+    | none => none
+  | ["cn_pollpushed", k] =>
+    match getSlot w k with
+    | some (_, slot) =>
+      if !slot.pushes then some (finish w c "nohandle")
+      else
+        match c.streams.refPollPushed slot.key s!"q{k}" with
+        | (s, .pending) => some (finish w (withStreams c s) "pending")
+        | (s, .none) => some (finish w (withStreams c s) "none")
+        | (s, .err e) => some (finish w (withStreams c s) ("err:" ++ renderApiErr (.proto e)))
+        | (s, .panic) => some (finish w (withStreams c s) "panic")
+        | (s, .pushed child method uri fields) =>
+          let sid := (s.stream child).id
+          let w := { w with slots := w.slots ++ [{ key := child, sid := sid, pushedFut := true }] }
+          some (finish w (withStreams c s)
+            s!"ok:{w.slots.length - 1}:{sid}:{bytesToString method}:{Hex.render uri}:{renderFieldsHex fields}")
+    | none => none
   | ["cn_resp", k] =>
     match getSlot w k with
     | some (i, slot) =>
-      if !slot.respFut then some (finish w c "nohandle")
+      if !slot.respFut && !slot.pushedFut then some (finish w c "nohandle")
       else
         match Streams.recvPollResponse ((c.streams.stream slot.key).pendingRecv.length + 1) c.streams slot.key s!"p{k}" with
         | (s, .pending) => some (finish w (withStreams c s) "pending")
         | (s, .response status f) =>
           -- `RecvStream::new(FlowControl::new(self.inner.clone()))`, then the harness drops the future
           let s := (s.cloneStreamRef slot.key).dropStreamRef slot.key
-          some (finish (setSlot w i { slot with body := true, respFut := false }) (withStreams c s)
+          some (finish (setSlot w i { slot with body := true, respFut := false, pushedFut := false }) (withStreams c s)
             s!"ok:{bytesToString status}:{renderFieldsHex f}")
         | (s, .err e) =>
           let s := s.dropStreamRef slot.key
-          some (finish (setSlot w i { slot with respFut := false }) (withStreams c s) ("err:" ++ renderApiErr (.proto e)))
+          some (finish (setSlot w i { slot with respFut := false, pushedFut := false }) (withStreams c s) ("err:" ++ renderApiErr (.proto e)))
         | (s, .panic) => some (finish w (withStreams c s) "panic")
     | none => none
   | ["cn_info", k] =>
